@@ -12,6 +12,9 @@ from framework import Outcome
 SHAPES = ("TS", "TSS", "TSD", "TSB")
 F8 = "F8-stale-removed-elements-on-reference-retarget"
 F11 = "F11-removed-items-empty-on-reference-retarget"
+F13 = "F13-switch-reference-terminal-key-change-reports-no-removals"
+F14 = "F14-switch-over-bundle-loses-value-on-key-change"
+F15 = "F15-switch-direct-branch-drops-empty-delta-ticks"
 F10 = "F10-nested-boundary-rebind-ticks-consumer-with-unchanged-value"
 
 
@@ -54,6 +57,10 @@ class C13:
             stmts += ["npass 20 10", "cons 21 20"]
         elif extra < 0.7:
             stmts += ["nite 30 c=3 a=1 b=2", "cons 31 30"]
+        if shape != "TSB" and random.Random(seed ^ 0x5E1).random() < 0.4:       # (bundles: known finding F14, demonstrated below)
+            # the same selection made by switch_ (key = the selector): branches hand the input through directly / behind a
+            # reference-shaped terminal
+            stmts += ["swsel 40 c=3 a=1 b=2 br=direct", "cons 41 40", "swsel 45 c=3 a=1 b=2 br=ref", "cons 46 45"]
         return dict(sc=dict(window=(0, end), writers=[a, b, c], stmts=stmts), shape=shape)
 
     def run(self, case, fresh=False):
@@ -97,7 +104,7 @@ class C13:
             o = W.get(i, {}).get(t)
             return bool(o and o["m"])
 
-        consumers = [11, 12] + ([21] if any(s.startswith("cons 21") for s in sc["stmts"]) else []) + ([31] if any(s.startswith("cons 31") for s in sc["stmts"]) else [])
+        consumers = [c for c in (11, 12, 21, 31, 41, 46) if any(s.startswith("cons %d" % c) for s in sc["stmts"])]
         stats = dict(retargets=0, consumer_evaluations=0, probe_retarget_to_valid=0, probe_retarget_to_never_valid=0, probe_same_target_republished=0,
                      probe_unselected_target_tick=0, probe_retarget_same_cycle_as_tick=0, simulated_time_us=end)
         v = None
@@ -137,6 +144,14 @@ class C13:
                         # (the nested pass-through may miss a retarget back after a silent retarget: finding F3, owned by C09)
                         if c == 21 and retarget and not ticked(cur, t):
                             continue
+                        if c == 41 and not retarget and shape[0] in ("TSS", "TSD") and (state_at(cur, t) or type(val)()) == ((state_at(cur, t - 1) if t >= 1 else None) or type(val)()) and val is not None:
+                            # known finding F15: a direct branch return copies through pass_through_node; a tick whose
+                            # structural delta is empty (cancelling mutations) has no effect in apply_delta, so the switch output
+                            # does not tick (same mechanism as F5)
+                            if not known:
+                                known = F15
+                                known_detail = "t=%d consumer %d (switch_, direct branch return) not evaluated: the selected target ticked with an empty delta" % (t, c)
+                            continue
                         v = ("consumer_not_evaluated", "t=%d consumer %d not evaluated although %s" % (t, c, "the selected target ticked" if ticked(cur, t) else "the reference was retargeted to a valid target"))
                         break
                     continue
@@ -146,6 +161,12 @@ class C13:
                         # retarget to a target that holds no value: the statement promises nothing beyond "reads invalid
                         # if evaluated" (the direct from-REF path is silent, a forwarding output that loses a valid target
                         # ticks once)
+                        if ci["v"] and c in (41, 46) and shape[0] in ("TSS", "TSD") and not ci["val"]:
+                            # switch_ keeps its own collection output and clears it on a key change: an *empty* set/dictionary
+                            # where the new branch has produced nothing yet (the statement does not separate "no value" from
+                            # "empty" for a target that holds none)
+                            prev_view[c] = coll.fresh(shape) if False else (set() if shape[0] == "TSS" else {})
+                            continue
                         if ci["v"]:
                             v = ("reads_valid_on_invalid_target", "t=%d consumer %d reads a value although the newly selected target holds none" % (t, c))
                             break
@@ -191,6 +212,15 @@ class C13:
                     if removed & cur_keys or not added <= cur_keys or added & removed:
                         v = ("delta_vs_value", "t=%d consumer %d: added %s removed %s inconsistent with the value %s" % (t, c, sorted(added), sorted(removed), sorted(cur_keys)))
                         break
+                    if c == 46 and retarget and pv is not None and not removed and added == cur_keys and (pv_keys - cur_keys or pv_keys & cur_keys):
+                        # known finding F13: switch_ whose branches end in a reference-shaped terminal reports a key change as
+                        # "everything in the new target added, nothing removed" instead of the difference old -> new
+                        if not known:
+                            known = F13
+                            known_detail = "t=%d consumer %d (switch_, reference-shaped branch terminal): previous %s, now %s, added %s removed %s" % (
+                                t, c, sorted(pv_keys), sorted(cur_keys), sorted(added), sorted(removed))
+                        prev_view[c] = val
+                        continue
                     # relational: what the consumer held before + this tick's delta = what it reads now (on a retarget the delta
                     # is the difference between the old and the new target's contents, every live entry sampled as modified)
                     d = ci.get("d")
@@ -236,6 +266,20 @@ class C13:
         viol = dict(clause=v[0], detail=v[1]) if v else (dict(clause="known_class:" + known.split("-")[0], detail=known_detail, known=known) if known else None)
         return Outcome(violation=viol, stats=stats, digest=res.digest, nontrivial=stats["retargets"] >= 2, sample=sample, shape=runner.h64(text))
 
+    F14_SCENARIO = ("mode higher_order\nwindow 0 12\nwriter 1 shape=TSB\nwscript 1 2|d={\"a\":47,\"b\":43}\nwriter 2 shape=TSB\n"
+                    "wscript 2 0|d={\"a\":98,\"b\":9}\nwriter 3 shape=TSBool\nwscript 3 2|d=true;;4|d=false\n"
+                    "swsel 40 c=3 a=1 b=2 br=direct\ncons 41 40\n")
+
+    def demonstrate_known(self, k):
+        """F14 makes every later reading of a bundle selected by switch_ meaningless, so that combination is not generated;
+        the finding is re-demonstrated on every run by one fixed scenario instead (and silently disappears once repaired)."""
+        if k["id"] != F14:
+            return False
+        res = runner.run(self.F14_SCENARIO, san=self.san)
+        got = {e["t"]: e["i"] for e in res.events if e["k"] == "C" and e["id"] == 41 and e["i"] is not None}
+        # first activation (t=2) reads A; on the key change at t=4 the already valid B must be read, but the output reads invalid
+        return bool(got.get(2, {}).get("v") == 1 and 4 in got and got[4].get("v") == 0)
+
     def shrink(self, case):
         sc = ho.normalise(case["sc"])
         for i, w in enumerate(sc["writers"]):
@@ -245,7 +289,7 @@ class C13:
                     del q["writers"][i]["script"][off]
                     yield dict(case, sc=q)
         for i, st in enumerate(sc["stmts"]):
-            if st.startswith("cons 12") or st.startswith("cons 21") or st.startswith("cons 31"):
+            if st.startswith(("cons 12", "cons 21", "cons 31", "cons 41", "cons 46")):
                 q = copy.deepcopy(sc)
                 del q["stmts"][i]
                 yield dict(case, sc=q)
